@@ -271,4 +271,114 @@ def w_program(ctx, rng, i):
                    sample={"ops": ops, "bases": names, "pool_lengths": [len(pm) for _, pm, _ in pool]})
 
 
-WORKLOADS = [Workload("program", w_program, quick=60000, thorough=2000000)]
+# ------------------------------------------------------------------ video-backed lazy lists (menpo/io/input/video.py)
+class _FakeStream(object):
+    def __init__(self, data):
+        import io
+        self._b = io.BytesIO(data)
+
+    def read(self, n=-1):
+        return self._b.read(n)
+
+    def readlines(self):
+        return self._b.readlines()
+
+    def flush(self):
+        pass
+
+    def close(self):
+        pass
+
+
+class FakePopen(object):
+    """Stand-in for ffprobe / ffmpeg: a synthetic video whose frame k is filled with the byte values (k, k+1, k+2)."""
+    N, W, H, FPS = 9, 4, 3, 25
+    spawned = 0
+
+    def __init__(self, command, **kw):
+        FakePopen.spawned += 1
+        self.stderr = self.stdin = None
+        cmd = [str(c) for c in command]
+        if any("ffprobe" in c for c in cmd[:1]):
+            txt = "width=%d\nheight=%d\navg_frame_rate=%d/1\nduration=%f\nnb_read_frames=%d\n" % (self.W, self.H, self.FPS, self.N / float(self.FPS), self.N)
+            self.stdout = _FakeStream(txt.encode())
+            return
+        start = 0
+        if "-ss" in cmd:
+            start = int(round(float(cmd[cmd.index("-ss") + 1]) * self.FPS))
+        data = b"".join(bytes([(k + c) % 256 for _ in range(self.W * self.H) for c in range(3)]) for k in range(start, self.N))
+        self.stdout = _FakeStream(data)
+
+    def poll(self):
+        return None          # the pipe stays alive: the reader keeps streaming from it
+
+    def wait(self):
+        return 0
+
+
+def frame_id(img):
+    px = np.asarray(img.pixels)
+    v = int(px[0, 0, 0])
+    if px.shape != (3, FakePopen.H, FakePopen.W) or not (px[0] == v).all() or not (px[1] == (v + 1) % 256).all():
+        return ("garbled", px.shape)
+    return v
+
+
+def w_video(ctx, rng, i):
+    """The list an importer hands out for a video: reading an element never depends on what was read before."""
+    V = taps.mod("menpo.io.input.video")
+    real = V.sp.Popen
+    V.sp.Popen = FakePopen
+    try:
+        ll = V.ffmpeg_importer("synthetic.mp4", normalize=False)
+        model = list(range(FakePopen.N))
+        ops = []
+        for step in range(int(rng.integers(1, 6))):
+            op = ["repeat", "fancy_dup", "slice", "add_self", "reverse", "copy", "map"][rng.integers(0, 7)]
+            n = len(model)
+            if n == 0:
+                break
+            if op == "repeat":
+                k = int(rng.integers(1, 4)); ll, model = ll.repeat(k), [e for e in model for _ in range(k)]
+            elif op == "fancy_dup":
+                idx = [int(v) for v in rng.integers(0, n, int(rng.integers(1, 7)))]
+                idx = idx + idx[:2]
+                ll, model = ll[idx], [model[j] for j in idx]
+            elif op == "slice":
+                a, b = sorted(int(v) for v in rng.integers(0, n + 1, 2))
+                st = [1, 2, -1][rng.integers(0, 3)]
+                sl = slice(a, b, st) if st > 0 else slice(b - 1 if b > 0 else None, a - 1 if a > 0 else None, -1)
+                ll, model = ll[sl], model[sl]
+            elif op == "add_self":
+                ll, model = ll[: n // 2 + 1] + ll[n // 2:], model[: n // 2 + 1] + model[n // 2:]
+            elif op == "reverse":
+                ll, model = ll[::-1], model[::-1]
+            elif op == "copy":
+                ll, model = ll.copy(), list(model)
+            else:
+                ll, model = ll.map(lambda im: im), list(model)
+            ops.append(op)
+        if len(ll) != len(model):
+            ctx.fail("length_differs_from_list_model", cls="LazyList", mech="video")
+        order = []
+        n = len(model)
+        if n:
+            order = [int(v) for v in rng.integers(0, n, 6)]
+            order += [order[-1], order[-1]]                    # the same element twice in a row
+            order += list(range(n)) if rng.random() < 0.5 else list(range(n - 1, -1, -1))
+        for j in order:
+            got = frame_id(ll[j])
+            ctx.tap("video_element_read", "calls"); ctx.tap("video_element_read", "checked")
+            if got != model[j]:
+                ctx.fail("element_value_depends_on_what_was_read_before", cls="LazyList", mech="video_reader", index=j, got=got, expected=model[j], ops=ops,
+                         read_order=order[:12])
+                break
+        vals = [frame_id(e) for e in ll]
+        if vals != model:
+            ctx.fail("iteration_differs_from_list_model", cls="LazyList", mech="video_reader", got=vals[:10], expected=model[:10])
+    finally:
+        V.sp.Popen = real
+    ctx.count_case(("video", tuple(ops)), nontrivial=len(ops) >= 1, sample={"video_ops": ops} if i < 2 else None)
+
+
+WORKLOADS = [Workload("program", w_program, quick=60000, thorough=2000000), Workload("video", w_video, quick=1500, thorough=60000)]
